@@ -17,6 +17,10 @@ IdPairsFull  == IdPairsQuick \cup {<<"own", "unset">>, <<"other", "own">>}
 
 \* every stdio combination on the base command
 CfgsIo == {[Base EXCEPT !.io = x] : x \in IoAll}
+\* ... and on a command that uses every other setting
+Rich == [nargs |-> 2, nenv |-> 2, cwd |-> "ok", uid |-> "other", gid |-> "unset", pg |-> "own",
+         io |-> <<"inherit", "inherit", "inherit">>, pre |-> <<0>>, prog |-> "ok"]
+CfgsIoRich == {[Rich EXCEPT !.io = x] : x \in IoAll}
 \* the other dimensions, with one mixed stdio table
 CfgsDimsQuick ==
     {[nargs |-> a, nenv |-> n, cwd |-> w, uid |-> u[1], gid |-> u[2], pg |-> g, io |-> <<"null", "pipe", "raw">>,
@@ -27,8 +31,8 @@ CfgsDimsFull ==
     {[nargs |-> a, nenv |-> n, cwd |-> w, uid |-> u[1], gid |-> u[2], pg |-> g, io |-> t, pre |-> p, prog |-> b] :
         a \in {0, 2}, n \in 0..2, w \in {"none", "ok", "missing"}, u \in IdPairsFull, g \in {"unset", "own"},
         t \in {<<"null", "pipe", "raw">>, <<"inherit", "inherit", "inherit">>}, p \in PreAll, b \in {"ok", "missing"}}
-CfgsQuick    == CfgsIo \cup CfgsDimsQuick
-CfgsThorough == CfgsIo \cup CfgsDimsFull
+CfgsQuick    == CfgsIo \cup CfgsIoRich \cup CfgsDimsQuick
+CfgsThorough == CfgsIo \cup CfgsIoRich \cup CfgsDimsFull
 CfgsTiny     == {Base, [Base EXCEPT !.io = <<"null", "pipe", "raw">>, !.cwd = "ok", !.uid = "own", !.gid = "own",
                                !.pg = "own", !.pre = <<0>>, !.nargs = 2, !.nenv = 2],
                  [Base EXCEPT !.cwd = "missing"], [Base EXCEPT !.pre = <<0, 13>>], [Base EXCEPT !.pre = <<-1>>],
